@@ -1766,7 +1766,7 @@ class _Date(Vector):
 
 		if isinstance(other, int):
 			return Vector(tuple((date.fromordinal(s.toordinal() + other) if s is not None else None) for s in self._underlying))
-		return super().add(other)
+		return super().__add__(other)
 
 	def eomonth(self):
 		out = []
